@@ -213,7 +213,7 @@ def coq_bad(ctx, name, typ, chk, items, shard=300, jobs=8):
 
     def one(arg):
         k, its = arg
-        body = ("Local Open Scope Q_scope.\nDefinition cases : list (%s) := [\n%s\n].\n"
+        body = ("From Coq Require Import Uint63.\nLocal Open Scope Q_scope.\nDefinition cases : list (%s) := [\n%s\n].\n"
                 "Eval vm_compute in (bad_indices %s cases).\n" % (typ, ";\n".join(its), chk))
         rc, out = ctx.coq_eval('%s_%d' % (name, k), body, IMPORTS + ['Model.StyleChk'], timeout=900)
         bl = ctx.parse_N_list(out) if rc == 0 else None
@@ -245,7 +245,7 @@ def coq_why(ctx, name, terms, jobs=16, max_chars=700000):
 
     def one(arg):
         k, idxs = arg
-        body = "Eval vm_compute in (map why [\n%s\n]).\n" % ";\n".join(terms[i] for i in idxs)
+        body = "From Coq Require Import Uint63.\nEval vm_compute in (map why [\n%s\n]).\n" % ";\n".join(terms[i] for i in idxs)
         rc, out = ctx.coq_eval('%s_%d' % (name, k), body, ['Model.Base', 'Model.StylePrims', 'Model.TreeValid'], timeout=1200)
         res = parse_nested(out) if rc == 0 else None
         if res is None or len(res) != len(idxs):
@@ -662,11 +662,14 @@ def radii_obs_term(c, dump):
     if p is None:
         return 'None'
     segs = p['segs']
-    ls = [s for s in segs if s[0] == 'L']
     w = to_f32(float(c['w']))
-    h = to_f32(float(c['h']))
     rx = segs[0][1] - 10.0
-    ry = (10.0 + h) - ls[1][2]
+    ry = 0.0
+    # M (x+rx, y); L (x+w-rx, y); arc to (x+w, y+ry): the first later segment ending on the right edge
+    for sg in segs[1:]:
+        if len(sg) >= 3 and sg[-2] == 10.0 + w:
+            ry = sg[-1] - 10.0
+            break
     return '(Some (%s, %s))' % (xnum(f32(rx)), xnum(f32(ry)))
 
 
@@ -1168,7 +1171,7 @@ def run(ctx):
         "C04_rect_radii assumes converted rx/ry are not NaN (needs dpi or font-size options that are NaN/0*inf)",
     ]
     broken = ctx.translate()
-    res = ctx.coq_props(extra_targets=['Model/StyleChk.vo'])
+    res = ctx.coq_props(extra_targets=['Model/StyleChk.v'])
     proof_ok = res['ok'] and not broken
     binp, blog = ctx.harness('release')
     if binp is None:
